@@ -46,6 +46,42 @@ package option
 //@   ensures  kept: result[0].Name == option.Name && result[0].Args == option.Args && result[0].Assignments == option.Assignments && result[0].Default == option.Default
 //@   ensures  comments: len(result[0].Comments) == len(option.Comments) + len(comments)
 //
+// rename_arguments: argument i gets the i-th new name and nothing else of it changes; an assignment
+// fed by argument i before the rename is fed by argument i after it (its argument record is renamed in
+// place to the i-th new name, resolved against the names the arguments had BEFORE the rename - a new
+// name may be the previous name of another argument); assignments that use no argument of the option,
+// paths, methods, constraints, comments and the default are kept. With a list of the wrong length the
+// option comes back unchanged. Argument names of an option are distinct and assignments do not share
+// argument records (builders derived by cog satisfy both).
+//@ spec renamedArgs(option, newNames, n) = forall k: int :: 0 <= k && k < n ==> option.Args[k].Name == old(newNames[k]) && option.Args[k].Type == old(option.Args[k].Type)
+//@ spec assignmentBound(option, newNames, a) = forall k: int :: 0 <= k && k < len(option.Args) && old(option.Assignments[a].Value.Argument.Name) == old(option.Args[k].Name) ==> option.Assignments[a].Value.Argument.Name == old(newNames[k])
+//@ spec assignmentUnbound(option, a) = (forall k: int :: 0 <= k && k < len(option.Args) ==> old(option.Assignments[a].Value.Argument.Name) != old(option.Args[k].Name)) ==> option.Assignments[a].Value.Argument.Name == old(option.Assignments[a].Value.Argument.Name)
+//@ func RenameArgumentsAction$1
+//@   property C17
+//@   requires distinct: forall a, b: int :: 0 <= a && a < b && b < len(option.Args) ==> option.Args[a].Name != option.Args[b].Name
+//@   requires unshared: forall a, b: int :: 0 <= a && a < b && b < len(option.Assignments) && option.Assignments[a].Value.Argument != nil ==> option.Assignments[a].Value.Argument != option.Assignments[b].Value.Argument
+//@   modifies option.Args[*], option.Assignments[*].Value.Argument.Name, spare-capacity
+//@   ensures  one: len(result) == 1 && fresh(result) && result[0].Name == option.Name && result[0].Args == option.Args && result[0].Assignments == option.Assignments && result[0].Default == option.Default && result[0].Comments == option.Comments
+//@   ensures  unchanged: len(newNames) != len(option.Args) ==> result[0] == option && (forall k: int :: 0 <= k && k < len(option.Args) ==> option.Args[k] == old(option.Args[k])) && (forall a: int :: 0 <= a && a < len(option.Assignments) && option.Assignments[a].Value.Argument != nil ==> option.Assignments[a].Value.Argument.Name == old(option.Assignments[a].Value.Argument.Name))
+//@   ensures  args: len(newNames) == len(option.Args) ==> renamedArgs(option, newNames, len(option.Args))
+//@   ensures  kept: forall a: int :: 0 <= a && a < len(option.Assignments) ==> option.Assignments[a] == old(option.Assignments[a])
+//@   ensures  bound: len(newNames) == len(option.Args) ==> (forall a: int :: 0 <= a && a < len(option.Assignments) && option.Assignments[a].Value.Argument != nil ==> assignmentBound(option, newNames, a))
+//@   ensures  unbound: len(newNames) == len(option.Args) ==> (forall a: int :: 0 <= a && a < len(option.Assignments) && option.Assignments[a].Value.Argument != nil ==> assignmentUnbound(option, a))
+//@   loop 0:
+//@     invariant names: base(previousNames) != 0 || len(option.Args) == 0
+//@     invariant pn: fresh(previousNames) && len(previousNames) == len(option.Args)
+//@     invariant done: forall k: int :: 0 <= k && k <= $i ==> previousNames[k] == old(option.Args[k].Name) && option.Args[k].Name == newNames[k] && option.Args[k].Type == old(option.Args[k].Type)
+//@     invariant todo: forall k: int :: $i < k && k < len(option.Args) ==> option.Args[k] == old(option.Args[k])
+//@   loop 1:
+//@     invariant pn: fresh(previousNames) && len(previousNames) == len(option.Args) && (forall k: int :: 0 <= k && k < len(option.Args) ==> previousNames[k] == old(option.Args[k].Name))
+//@     invariant done: forall a: int :: 0 <= a && a <= $i && option.Assignments[a].Value.Argument != nil ==> assignmentBound(option, newNames, a) && assignmentUnbound(option, a)
+//@     invariant todo: forall a: int :: $i < a && a < len(option.Assignments) && option.Assignments[a].Value.Argument != nil ==> option.Assignments[a].Value.Argument.Name == old(option.Assignments[a].Value.Argument.Name)
+//@   loop 2:
+//@     invariant pn: fresh(previousNames) && len(previousNames) == len(option.Args) && (forall k: int :: 0 <= k && k < len(option.Args) ==> previousNames[k] == old(option.Args[k].Name))
+//@     invariant done: forall a: int :: 0 <= a && a < j && option.Assignments[a].Value.Argument != nil ==> assignmentBound(option, newNames, a) && assignmentUnbound(option, a)
+//@     invariant todo: forall a: int :: j <= a && a < len(option.Assignments) && option.Assignments[a].Value.Argument != nil ==> option.Assignments[a].Value.Argument.Name == old(option.Assignments[a].Value.Argument.Name)
+//@     invariant none: forall k: int :: 0 <= k && k <= $i ==> old(option.Assignments[j].Value.Argument.Name) != previousNames[k]
+//
 // array_to_append / map_to_index: options they do not apply to come back unchanged; otherwise one
 // option comes back under the same name whose first assignment still targets the same path, now
 // appending (indexing), with the argument retyped to the element (value) type; the other assignments,
